@@ -259,6 +259,8 @@ theorem SameFlow.no_nsDoc {c1 c2 : Ctx} (h : SameFlow c1 c2) (s : St) (kvs : Lis
   | ZU => simp only [node] at h1; cases h1
   | ZA => simp only [node] at h2; cases h2
   | ZP => simp only [node] at h2; cases h2
+  | ZOp => simp only [node] at h1; cases h1
+  | ZOps => simp only [node] at h2; cases h2
   | Keep => simp only [node] at h2; cases h2
 
 end Ctx
